@@ -67,7 +67,8 @@ func newOSWorld(fsname, osname string, umask int, dirs []avfs.DirInfo) *osWorld 
 		case "memfs":
 			b = memfs.NewWithOptions(&memfs.Options{OSType: t, SystemDirs: dirs})
 		case "orefafs":
-			b = orefafs.NewWithOptions(&orefafs.Options{OSType: t, SystemDirs: dirs})
+			// the administrator as an explicit user (uid 0, gid 0), as the orefa stream does
+			b = orefafs.NewWithOptions(&orefafs.Options{OSType: t, SystemDirs: dirs, User: huser{uid: 0, gid: 0, admin: true}})
 		default:
 			panic("unsupported fs " + fsname)
 		}
@@ -447,7 +448,7 @@ func runOSType(cfg config) {
 	if v := os.Getenv("VERIF_OSTYPE_HISTORIES"); v != "" {
 		nh = atoi(v)
 	}
-	o.rule = fmt.Sprintf("%d random histories of %d calls, alternately on a Windows-typed and a Linux-typed MemFS built by NewWithOptions{OSType}: the state-aware generator of the fs stream (names {a,b,c}; existing / child of existing / missing parent / special and unclean spellings / relative paths; all namespace, handle, view, identity and umask calls) with, for the Windows type, paths respelled with a volume (C:, a second and third volume, lower case, none, volume-relative, UNC) and '\\' or '/' separators, plus VolumeAdd/VolumeDelete/VolumeList; every result (error numbers included) and the snapshot digest of every volume after every call compared with the extracted Coq model", nh, hl)
+	o.rule = fmt.Sprintf("%d random histories of %d calls, on Windows-typed and Linux-typed MemFS (3 of 4 histories) and OrefaFS built by NewWithOptions{OSType}: the state-aware generator of the fs stream (names {a,b,c}; existing / child of existing / missing parent / special and unclean spellings / relative paths; all namespace, handle, view, identity and umask calls) with, for the Windows type, paths respelled with a volume (C:, a second and third volume, lower case, none, volume-relative, UNC) and '\\' or '/' separators, plus VolumeAdd/VolumeDelete/VolumeList; every result (error numbers included) and the snapshot digest of every volume after every call compared with the extracted Coq model", nh, hl)
 	r := &rng{s: cfg.seed*104729 + 71}
 	lens := 0
 	for i := 0; i < nh; i++ {
@@ -456,8 +457,13 @@ func runOSType(cfg config) {
 		if i%3 == 2 {
 			osname = "linux"
 		}
-		hdr := fmt.Sprintf("memfs %s %d md5", osname, um)
-		w := newOSWorld("memfs", osname, um, nil)
+		fsname := "memfs"
+		if i%4 == 3 {
+			fsname = "orefafs"
+			osname = []string{"windows", "linux"}[(i/4)%2]
+		}
+		hdr := fmt.Sprintf("%s %s %d md5", fsname, osname, um)
+		w := newOSWorld(fsname, osname, um, nil)
 		if len(w.views) == 0 {
 			o.emit(hdr, "NOTYPE", "")
 			continue
@@ -471,8 +477,8 @@ func runOSType(cfg config) {
 			op := og.op()
 			res := w.applyGuardedO(strings.Fields(op))
 			ops = append(ops, op)
-			o.count("op:" + osname + ":" + opKind(op))
-			o.count("res:" + osname + ":" + resKind(res))
+			o.count("op:" + fsname + ":" + osname + ":" + opKind(op))
+			o.count("res:" + fsname + ":" + osname + ":" + resKind(res))
 			if res == "DEADLOCK" || res == "PANIC" {
 				outs = append(outs, res+showSnapSafe("md5", w.fsWorld, res))
 				break
@@ -483,7 +489,7 @@ func runOSType(cfg config) {
 			}
 			sn := w.showSnapO("md5", og.refresh())
 			outs = append(outs, res+sn)
-			o.distinct[osname+"/"+opKind(op)+"/"+resKind(res)+sn] = struct{}{}
+			o.distinct[fsname+osname+"/"+opKind(op)+"/"+resKind(res)+sn] = struct{}{}
 		}
 		lens += len(ops)
 		o.emit(hdr+" | "+strings.Join(ops, " | "), strings.Join(outs, " | "), "")
